@@ -267,6 +267,7 @@ pub const G_EXPR: u8 = 6;
 /// Probe for Default: one distinct type per field position (K = 1-based declaration index), so the
 /// fingerprint of `<PK<K> as Default>::default()` tells *whose* default was taken.
 #[derive(Clone, Copy)]
+#[repr(C)]
 pub struct PK<const K: u8> {
     pub s: u8,
     pub f: u8,
@@ -339,6 +340,31 @@ pub fn m_any<T>(_: &T, f: &mut std::fmt::Formatter<'_>) -> std::fmt::Result {
 pub fn m_anyhash<T, H: Hasher>(_: &T, _: &mut H) {}
 
 /// a user expression (not a literal)
+/// the same probe without a Default impl (same layout): a field that is only ever built from its own expression must
+/// not be asked for `Default`
+#[derive(Clone, Copy)]
+#[repr(C)]
+pub struct PN<const K: u8> {
+    pub s: u8,
+    pub f: u8,
+    pub v: i8,
+    pub g: u8,
+}
+impl<const K: u8> PN<K> {
+    pub fn finger(&self) -> String {
+        format!("[\"{}\",{},{},{}]", side_name(self.s), self.f, self.v, self.g)
+    }
+}
+impl<const K: u8> std::fmt::Debug for PN<K> {
+    fn fmt(&self, f: &mut std::fmt::Formatter<'_>) -> std::fmt::Result {
+        write!(f, "pn{}", self.v)
+    }
+}
+pub fn pnexpr<const K: u8>(n: i8) -> PN<K> {
+    log_push(format!("[\"expr\",\"own\",{}]", n));
+    PN { s: 3, f: 0, v: n, g: G_EXPR }
+}
+
 pub fn pexpr<const K: u8>(n: i8) -> PK<K> {
     log_push(format!("[\"expr\",\"own\",{}]", n));
     PK { s: 3, f: 0, v: n, g: G_EXPR }
